@@ -23,7 +23,21 @@ pub struct Server {
     pub dir: PathBuf,
 }
 
-fn free_port() -> u16 {
+/// A port for a server this process is about to start. Ports come from a range below the kernel's
+/// ephemeral range, partitioned by process id, so that concurrently running workers (which all
+/// start servers at the same time) do not hand each other's ports out: with bind(0) the kernel
+/// readily gives the port one worker just probed to the next one.
+pub fn free_port() -> u16 {
+    use std::sync::atomic::{AtomicU32, Ordering};
+    static NEXT: AtomicU32 = AtomicU32::new(0);
+    let pid = std::process::id();
+    for _ in 0..200 {
+        let n = NEXT.fetch_add(1, Ordering::Relaxed);
+        let port = 10_000 + ((pid % 500) * 40 + (n % 40)) as u16;
+        if TcpListener::bind(("127.0.0.1", port)).is_ok() {
+            return port;
+        }
+    }
     let l = TcpListener::bind("127.0.0.1:0").expect("bind :0");
     l.local_addr().unwrap().port()
 }
